@@ -102,7 +102,7 @@ def run(ck, prog, ctx):
         tests = []
         for bi, t in b.calls():
             c = t.callee
-            if c.trait == "std::cmp::PartialEq" and c.method == "eq" and len(t.args) == 2 and re.search(r"HpoTermId|HpoTerm", c.def_args or ""):
+            if c.trait == "std::cmp::PartialEq" and c.method in ("eq", "ne") and len(t.args) == 2 and re.search(r"HpoTermId|HpoTerm", c.def_args or ""):
                 p0 = params_of(pv.of_operand(b, t.args[0]), b.id)
                 p1 = params_of(pv.of_operand(b, t.args[1]), b.id)
                 if (p0, p1) in (({2}, {3}), ({3}, {2})):
@@ -112,6 +112,10 @@ def run(ck, prog, ctx):
             continue
         bi, t = tests[0]
         pos = positive_edges(b, pvl, bi)
+        if t.callee.method == "ne":
+            # `a != b`: the terms are identical on the edges where the test is FALSE
+            sw_ = {e_[0] for e_ in pos}
+            pos = [(sb_, tg_) for sb_ in sorted(sw_) for tg_ in b.succ[sb_] if (sb_, tg_) not in pos]
         if not pos:
             ck.undecided("IDENT", name + "/test", "branch on the identity test not recognised", where=b.where(t.line))
             continue
